@@ -145,7 +145,7 @@ def run(ctx):
         ctx.finding("pair:%d:%s" % (b["group"], b["complaints"][0][:40]), "group %d: %s" % (b["group"], b["complaints"][0]), {"kind": "failing-input", "case": b})
     import analyzer_hist
     analyzer_hist.check(ctx, "C06", broken)
-    if broken and not ctx.findings:
+    if broken and not ctx.unknown_findings():
         drng = np.random.default_rng(ctx.seed + 60606)
         nd = 0
         for n, a1, a2, meta in S.directed_crystals(ctx, S.broken_groups(broken)[:6], drng):
@@ -158,7 +158,7 @@ def run(ctx):
                 nd += 1
                 ctx.finding("pair:%d:%s" % (n, res[0][:40]), "group %d (directed, letter %s): %s" % (n, meta["letter"], res[0]),
                             {"kind": "failing-input", "case": {"group": n, "complaints": res, "atoms": crystals.atoms_to_json(a1), "other": crystals.atoms_to_json(a2), "presentation": meta}})
-    if broken and not ctx.findings:
+    if broken and not ctx.unknown_findings():
         ctx.finding("unproved", "proof/correspondence broken, no failing pair found", {"kind": "broken-obligation", "broken": broken}, found_input=False)
     ctx.coverage["broken"] = [{"what": k, "info": i} for k, i in broken]
     ctx.coverage["correspondence_mismatches"] = len(mism)
